@@ -63,7 +63,7 @@ def index_type(prefix):
 def one_length(prefix):
     side = "prefix" if prefix else "suffix"
 
-    @contract("adapters.py", "AdapterIndex._match_to_one_length", props=["C08"], name=f"AdapterIndex._match_to_one_length@{side}")
+    @contract("adapters.py", "AdapterIndex._match_to_one_length", props=["C08", "C03"], name=f"AdapterIndex._match_to_one_length@{side}")
     def _c(c):
         c.types(self=index_type(prefix), sequence=Str)
         c.returns(OptT(SingleMatchT))
@@ -103,7 +103,7 @@ for _c in (one_length_prefix, one_length_suffix):
 def multiple_lengths(prefix):
     side = "prefix" if prefix else "suffix"
 
-    @contract("adapters.py", "AdapterIndex._match_to_multiple_lengths", props=["C08"], name=f"AdapterIndex._match_to_multiple_lengths@{side}")
+    @contract("adapters.py", "AdapterIndex._match_to_multiple_lengths", props=["C08", "C03"], name=f"AdapterIndex._match_to_multiple_lengths@{side}")
     def _c(c):
         c.types(self=index_type(prefix), sequence=Str)
         c.returns(OptT(SingleMatchT))
